@@ -149,7 +149,7 @@ impl Property for C04 {
 
     fn sweep(&self, _tier: Tier, _seed: u64, sw: &mut Sweep) -> Result<(), (Case, Fail)> {
         let table = &*TABLE;
-        let mut run = |items: Vec<Item>, sw: &mut Sweep| -> Result<(), (Case, Fail)> {
+        let run = |items: Vec<Item>, sw: &mut Sweep| -> Result<(), (Case, Fail)> {
             sw.evaluations += 1;
             sw.nontrivial += 1;
             match guard(|| check_items(&items)) {
